@@ -29,7 +29,7 @@ class AssumeFailed(Exception):
 class Case(object):
     def __init__(self, name, body, backend='BV', abstract_products=False, ifconvert=None,
                  max_paths=200000, max_decisions=4000, max_fanout=64, timeout_s=600,
-                 query_timeout_ms=120000, params=None, nolift=None, note='', extra_globals=None):
+                 query_timeout_ms=120000, params=None, nolift=None, note='', extra_globals=None, symdict=None):
         self.name = name
         self.body = body
         self.backend = backend
@@ -43,6 +43,7 @@ class Case(object):
         self.params = params or {}
         self.nolift = nolift or []
         self.extra_globals = extra_globals or {}
+        self.symdict = symdict or []
         self.note = note
 
 
@@ -291,6 +292,7 @@ def _configure_lift(case):
     lift.CONFIG.ifconvert = dict(case.ifconvert)
     lift.CONFIG.nolift = list(case.nolift)
     lift.CONFIG.extra_globals = dict(case.extra_globals)
+    lift.CONFIG.symdict = list(case.symdict)
     lift.install()
 
 
